@@ -198,10 +198,11 @@ void harness(void) { ghost_reset(); Core* s; Core* c; Impl(s, c); if (g.tokens) 
         job('AwaitOnEvent.Impl.single%d' % single, b, src, 'Impl', ['SubEqual', 'Submit'], canaries=1 if single else 2)
     b = find_body(repo, F_AO, r'void\s+await_suspend\s*\(', 'AwaitOnAwaiter::await_suspend', within=r'struct\s+\[\[nodiscard\]\]\s+AwaitOnAwaiter\s+final')
     c = Rewriter('AwaitOnAwaiter::await_suspend', pre=[(r'auto\s*&\s*core\s*=\s*handle\.promise\(\)\s*;', 'Core* core = promise;', 0), (r'core\._executor\s*=\s*&_executor\s*;', 'core->_executor = self->_executor_ref;', 0),
+                                                       (r'(?<![\w.>])job->_executor\s*=\s*&_executor\s*;', 'self->job->_executor = self->_executor_ref;', 0),
                                                        (r'Handle\s+caller_handle\s*\{\s*\*job\s*\}\s*;', 'Core* caller_handle = self->job;', 0), (r'\bjob\s*=\s*&core\s*;', 'self->job = core;', 0),
                                                        (r'caller_handle\.SetCallback\(\s*\*this\s*\)', 'SetCallback(caller_handle, self)', 0), (r'_executor\.Submit\(\s*core\s*\)', 'Submit(self->_executor_ref, core)', 0)], nomembers=['_executor']).rewrite(b.text)
     src = COMMON + '''void await_suspend(Core* self, Core* promise)
-__CPROVER_requires(__CPROVER_is_fresh(self, sizeof(*self)) && __CPROVER_is_fresh(promise, sizeof(*promise)) && self->job != 0 && self->_executor_ref != 0 && g.tokens == 0 && g.attach_calls == 0)
+__CPROVER_requires(__CPROVER_is_fresh(self, sizeof(*self)) && __CPROVER_is_fresh(promise, sizeof(*promise)) && __CPROVER_is_fresh(self->job, sizeof(Core)) && self->_executor_ref != 0 && g.tokens == 0 && g.attach_calls == 0)
 __CPROVER_assigns(promise->_executor, self->job, g.attach_calls, g.attach_on, g.attach_cb, g.tokens, g.token_for, g.token_exec, g.token_kind)
 /* co_await AwaitOn(e, f): the coroutine's executor becomes e; the awaiter is attached to f after it recorded the coroutine; if f was already complete the coroutine is submitted to e right now -
    in both cases exactly one Submit to e will resume it */
